@@ -179,7 +179,7 @@ def run(ctx):
     if not quick:
         coqchk(ctx)
     fuel = 60
-    cases = generate(ctx, 1800 if quick else 50000, 10 if quick else 250, fuel)
+    cases = generate(ctx, 1800 if quick else 35000, 10 if quick else 250, fuel)
     res = evaluate(ctx, cases, "main")
     ctx.trusted.append("harness/exec_harness.py: builds real instruction objects (from_operands), runs the real "
                        "netqasm Executor (sub-classed only for the handler-call bound, _do_wait -> blocked, recording the "
